@@ -691,6 +691,24 @@ func ruleSKFail(c *Ctx) {
 							bad = append(bad, fmt.Sprintf("%s refuses at %s on the amount of input left (%s), compared with something that is not the number of bytes it is about to consume: a value that needs fewer bytes is rejected", m, where, e.canon(s.fn, a)))
 						}
 					case lv.wire && m == "Skip":
+						// "the amount about to be consumed is negative" in the function that consumes it is the
+						// buffer's own refusal written out (Next refuses a negative length too), not a test of a
+						// decoded value that Read would have to make as well
+						if cmp, isCmp := asCmp(a.cond, a.truth); isCmp {
+							isAmount := func(v ssa.Value) bool {
+								for _, am := range amounts {
+									if stripConv(am) == stripConv(v) {
+										return true
+									}
+								}
+								return false
+							}
+							kx, isKx := constInt(stripConv(cmp.X))
+							ky, isKy := constInt(stripConv(cmp.Y))
+							if isKy && ky == 0 && cmp.Op == token.LSS && isAmount(cmp.X) || isKx && kx == 0 && cmp.Op == token.GTR && isAmount(cmp.Y) {
+								continue
+							}
+						}
 						cn := e.canon(s.fn, a)
 						if strings.Contains(cn, "?") {
 							unk = append(unk, fmt.Sprintf("the test at %s (%s) could not be put in a form comparable with Read's", where, cn))
